@@ -360,10 +360,9 @@ def run(prop, tier, extra=None):
                                     templates=tpl))
     if prop == 'C01':
         # disk-backed receivers ("a file obtained from ... a reader")
-        for i in range(120 if tier == 'quick' else 1500):
-            progs.append(cd.gen_program(
-                rnd, rnd.choice([2, 3]), templates=['T1', 'T2', 'T3', 'T4',
-                                                    'T5', 'T7'], disk=True))
+        progs += cd.gen_disk_programs(
+            rnd, 120 if tier == 'quick' else 1500, [2, 3], False,
+            ['T1', 'T2', 'T3', 'T4', 'T5', 'T7'])
     if prop == 'C06':
         progs += mask_codes(rnd, tier)
     if prop == 'C04':
